@@ -867,3 +867,77 @@ proof fn lemma_prod_bridge(na: Seq<ZddNode>, ra: ZddRef, nb: Seq<ZddNode>, rb: Z
         lemma_prod_intro(n, ra, rb2, s, x, y);
     }
 }
+
+// ============================================================================================
+// Iteration (explicit-stack DFS).  Stack entries are (node, branch): 0 = unexplored, 1 = lo done, 2 = hi in progress.
+// The current path is the sequence of variables of the branch-2 entries, bottom to top.
+// ============================================================================================
+spec fn it_prefix(stack: Seq<(ZddRef, u8)>, nodes: Seq<ZddNode>, k: int) -> Seq<u32>
+    decreases k
+{
+    if k <= 0 { Seq::<u32>::empty() } else {
+        let p = it_prefix(stack, nodes, k - 1);
+        let e = stack[k - 1];
+        if e.1 >= 2 && e.0 is Node { p.push(nodes[e.0->Node_0 as int].var) } else { p }
+    }
+}
+spec fn it_entry_ok(stack: Seq<(ZddRef, u8)>, nodes: Seq<ZddNode>, root: ZddRef, k: int) -> bool {
+    let n = stack[k].0; let br = stack[k].1; let p = it_prefix(stack, nodes, k);
+    &&& valid(n, nodes.len() as int)
+    &&& strictly_ascending(p)
+    &&& forall|j: int| 0 <= j < p.len() ==> (#[trigger] p[j] as int) < top(nodes, n)
+    &&& (br != 0 ==> n is Node)
+    &&& br <= 2
+    &&& (br == 0 ==> forall|s: Set<u32>| #[trigger] mem(nodes, n, s) ==> mem(nodes, root, p.to_set().union(s)))
+    &&& (br == 1 ==> forall|s: Set<u32>| #[trigger] mem(nodes, nodes[n->Node_0 as int].hi, s)
+                        ==> mem(nodes, root, p.to_set().insert(nodes[n->Node_0 as int].var).union(s)))
+}
+spec fn it_stack_ok(stack: Seq<(ZddRef, u8)>, path: Seq<u32>, nodes: Seq<ZddNode>, root: ZddRef) -> bool {
+    &&& nodes_ok(nodes)
+    &&& forall|k: int| 0 <= k < stack.len() ==> #[trigger] it_entry_ok(stack, nodes, root, k)
+    &&& path == it_prefix(stack, nodes, stack.len() as int)
+    &&& (stack.len() > 0 ==> stack[0].0 == root)
+}
+
+proof fn lemma_prefix_agree(s1: Seq<(ZddRef, u8)>, s2: Seq<(ZddRef, u8)>, nodes: Seq<ZddNode>, k: int)
+    requires 0 <= k <= s1.len(), k <= s2.len(), forall|j: int| 0 <= j < k ==> s1[j] == s2[j],
+    ensures it_prefix(s1, nodes, k) == it_prefix(s2, nodes, k),
+    decreases k
+{
+    if k > 0 { lemma_prefix_agree(s1, s2, nodes, k - 1); }
+}
+proof fn lemma_entry_agree(s1: Seq<(ZddRef, u8)>, s2: Seq<(ZddRef, u8)>, nodes: Seq<ZddNode>, root: ZddRef, k: int)
+    requires 0 <= k < s1.len(), k < s2.len(), forall|j: int| 0 <= j <= k ==> s1[j] == s2[j], it_entry_ok(s1, nodes, root, k),
+    ensures it_entry_ok(s2, nodes, root, k),
+{
+    lemma_prefix_agree(s1, s2, nodes, k);
+}
+// all entries below the changed top keep their invariant
+proof fn lemma_entries_below(s1: Seq<(ZddRef, u8)>, s2: Seq<(ZddRef, u8)>, nodes: Seq<ZddNode>, root: ZddRef, m: int)
+    requires 0 <= m <= s1.len(), m <= s2.len(), forall|j: int| 0 <= j < m ==> s1[j] == s2[j],
+        forall|k: int| 0 <= k < m ==> #[trigger] it_entry_ok(s1, nodes, root, k),
+    ensures forall|k: int| 0 <= k < m ==> #[trigger] it_entry_ok(s2, nodes, root, k),
+        it_prefix(s1, nodes, m) == it_prefix(s2, nodes, m),
+{
+    assert forall|k: int| 0 <= k < m implies #[trigger] it_entry_ok(s2, nodes, root, k) by { lemma_entry_agree(s1, s2, nodes, root, k); }
+    lemma_prefix_agree(s1, s2, nodes, m);
+}
+proof fn lemma_to_set_push(p: Seq<u32>, v: u32)
+    ensures p.push(v).to_set() =~= p.to_set().insert(v),
+{
+    assert forall|x: u32| p.push(v).to_set().contains(x) == p.to_set().insert(v).contains(x) by {
+        if p.push(v).to_set().contains(x) {
+            let i = choose|i: int| 0 <= i < p.push(v).len() && p.push(v)[i] == x;
+            if i < p.len() { assert(p[i] == x); }
+        }
+        if p.to_set().contains(x) {
+            let i = choose|i: int| 0 <= i < p.len() && p[i] == x;
+            assert(p.push(v)[i] == x);
+        }
+        if x == v { assert(p.push(v)[p.len() as int] == v); }
+    }
+}
+proof fn lemma_ascending_push(p: Seq<u32>, v: u32)
+    requires strictly_ascending(p), forall|j: int| 0 <= j < p.len() ==> #[trigger] p[j] < v,
+    ensures strictly_ascending(p.push(v)),
+{ }
